@@ -209,4 +209,34 @@ def serveFileobj (proto11 lenKnown : Bool) (range : Option Text) (content : Byte
     | none => .whole true len content
   else .whole false len content
 
+/-! ### the multipart/byteranges body (`file_ranges()` in `_serve_fileobj`)
+
+  `boundary` (from `email.generator._make_boundary`) and `ctype` (the entity's Content-Type) are
+  parameters.  The generator yields: CRLF, then per range `--boundary`, `CRLF Content-type: ctype`,
+  `CRLF Content-range: bytes a-b/total CRLF CRLF`, the slice, CRLF; finally `--boundary--`, CRLF. -/
+
+def digitChar (d : Nat) : Char := Char.ofNat (48 + d)
+
+/-- `'%s' % n` for a non-negative int; `fuel` bounds the number of digits -/
+def toDec : Nat → Nat → Text
+  | 0, _ => []
+  | fuel + 1, n => if n < 10 then [digitChar n] else toDec fuel (n / 10) ++ [digitChar (n % 10)]
+
+def dec (n : Nat) : Text := toDec (n + 1) n
+
+/-- `ntob(s, 'ascii')` -/
+def ascii (s : Text) : Bytes := s.map fun c => UInt8.ofNat c.toNat
+
+def crlf : Bytes := [13, 10]
+def dashes : Bytes := [45, 45]
+
+def partHeader (boundary ctype : Bytes) (p : Part) : Bytes :=
+  dashes ++ boundary ++ crlf ++ ascii "Content-type: ".toList ++ ctype ++ crlf ++
+    ascii "Content-range: bytes ".toList ++ ascii (dec p.first) ++ [45] ++ ascii (dec p.last) ++
+    [47] ++ ascii (dec p.total) ++ crlf ++ crlf
+
+def renderMultipart (boundary ctype : Bytes) (parts : List Part) : Bytes :=
+  crlf ++ (parts.flatMap fun p => partHeader boundary ctype p ++ p.body ++ crlf) ++
+    dashes ++ boundary ++ dashes ++ crlf
+
 end CpModel.Ranges
